@@ -6,14 +6,14 @@ package upload
 
 import (
 	realjson "encoding/json"
-	"io"
-	"log"
 	"math"
 	"time"
 
 	"golang.org/x/telemetry/internal/counter"
 	"golang.org/x/telemetry/internal/telemetry"
 	"golang.org/x/telemetry/internal/vrt"
+	"golang.org/x/telemetry/internal/vrt/vconfigstore"
+	"golang.org/x/telemetry/internal/vrt/vcounter"
 	"golang.org/x/telemetry/internal/vrt/vhttp"
 	"golang.org/x/telemetry/internal/vrt/vjson"
 	"golang.org/x/telemetry/internal/vrt/vos"
@@ -132,19 +132,20 @@ func vcUploader(cfg *telemetry.UploadConfig, mode string) *uploader {
 	vos.Reset()
 	vhttp.Reset()
 	vjson.Reset()
+	vcounter.Reset()
+	vconfigstore.Reset()
 	vos.AddDir(vcDir + "/local")
 	vos.AddDir(vcDir + "/upload")
 	if mode != "" {
 		vos.AddFile(vcDir+"/mode", []byte(mode))
 	}
-	return &uploader{
-		config:          cfg,
-		configVersion:   "v1.2.3",
-		dir:             telemetry.NewDir(vcDir),
-		uploadServerURL: "http://srv",
-		startTime:       time.Date(2024, 1, 10, 3, 4, 5, 0, time.UTC),
-		logger:          log.New(io.Discard, "", 0),
+	vconfigstore.Config = cfg
+	u, err := newUploader(RunConfig{TelemetryDir: vcDir, UploadURL: "http://srv", StartTime: time.Date(2024, 1, 10, 3, 4, 5, 0, time.UTC)})
+	if err != nil {
+		panic("newUploader: " + err.Error())
 	}
+	u.config, u.configVersion = cfg, "v1.2.3"
+	return u
 }
 
 // ---- reference semantics of the upload configuration (nested loops, no maps) ----
@@ -274,12 +275,11 @@ func VC01_report() {
 	x := vcX()
 	var files []*counter.File
 	var fnames []string
-	u.cache.m = map[string]*counter.File{}
 	for i := 0; i < nfiles; i++ {
 		f := vcFile(nctr, slen, vrt.Param("namelen", 3))
 		fn := vcDir + "/local/f" + string(rune('0'+i)) + ".v1.count"
-		vos.AddFile(fn, []byte("x"))
-		u.cache.m[fn] = f
+		vos.AddFile(fn, []byte("x"+string(rune('0'+i))))
+		vcounter.Register("x"+string(rune('0'+i)), f)
 		files = append(files, f)
 		fnames = append(fnames, fn)
 	}
@@ -437,7 +437,6 @@ func VC01_builds() {
 	if !vrt.IsSymbolic() {
 		vrand.Next = []byte{0, 0, 0, 0, 0, 0, 0xe8, 0x3f} // fraction 0.75: X = 0.5
 	}
-	u.cache.m = map[string]*counter.File{}
 	var files []*counter.File
 	var fnames []string
 	for i := 0; i < 2; i++ {
@@ -449,8 +448,8 @@ func VC01_builds() {
 		vrt.Assume(v > 0 && v < 1<<62)
 		f.Count["c"] = v
 		fn := vcDir + "/local/f" + string(rune('0'+i)) + ".v1.count"
-		vos.AddFile(fn, []byte("x"))
-		u.cache.m[fn] = f
+		vos.AddFile(fn, []byte("x"+string(rune('0'+i))))
+		vcounter.Register("x"+string(rune('0'+i)), f)
 		files = append(files, f)
 		fnames = append(fnames, fn)
 	}
@@ -488,4 +487,57 @@ func VC01_builds() {
 			vrt.Assert(len(r.Programs) == 1, "the approved build is uploaded whatever other builds the week holds")
 		}
 	}
+}
+
+// VC01_rerun: one long-running process runs the uploader twice. At the first run the
+// week's counter file is still active (its expiry lies ahead), so it is only looked at;
+// the program keeps counting into it; the second run, after expiry, must upload the
+// file's final values - the sum over the expired file as it is then, not as it was when
+// an earlier run in the same process happened to look at it.
+func VC01_rerun() {
+	cfg := &telemetry.UploadConfig{GOOS: []string{"o"}, GOARCH: []string{"a"}, GoVersion: []string{"g"}, SampleRate: 1,
+		Programs: []*telemetry.ProgramConfig{{Name: "p", Versions: []string{"1"}, Counters: []telemetry.CounterConfig{{Name: "c", Rate: 1}, {Name: "d", Rate: 1}}}}}
+	u1 := vcUploader(cfg, "on 2020-01-01")
+	vcRandomX = 0.5
+	if !vrt.IsSymbolic() {
+		vrand.Next = []byte{0, 0, 0, 0, 0, 0, 0xe8, 0x3f, 0, 0, 0, 0, 0, 0, 0xe8, 0x3f}
+	}
+	mk := func(c uint64, withD bool, d uint64) *counter.File {
+		f := &counter.File{Meta: map[string]string{"Program": "p", "Version": "1", "GoVersion": "g", "GOOS": "o", "GOARCH": "a",
+			"TimeBegin": "2024-01-01T00:00:00Z", "TimeEnd": "2024-01-08T00:00:00Z"}, Count: map[string]uint64{"c": c}}
+		if withD {
+			f.Count["d"] = d
+		}
+		return f
+	}
+	c1, c2, d2 := vrt.U64(), vrt.U64(), vrt.U64()
+	vrt.Assume(c1 > 0 && c1 <= c2 && c2 < 1<<40 && d2 > 0 && d2 < 1<<40)
+	fn := vcDir + "/local/p@1-g-o-a-2024-01-01.v1.count"
+	vos.AddFile(fn, []byte("early"))
+	vcounter.Register("early", mk(c1, false, 0))
+	vcounter.Register("final", mk(c2, true, d2))
+	// first run: 2024-01-05, the file is active
+	u1.startTime = time.Date(2024, 1, 5, 3, 4, 5, 0, time.UTC)
+	u1.Run()
+	vrt.Assert(len(vhttp.Log) == 0, "nothing is uploaded while the week's file is active")
+	vrt.Assert(vos.Lookup(fn) != nil, "an active counter file is left alone")
+	// the program keeps counting; the file's final content
+	vos.Lookup(fn).Data = []byte("final")
+	// second run in the same process, after expiry
+	u2, err := newUploader(RunConfig{TelemetryDir: vcDir, UploadURL: "http://srv", StartTime: time.Date(2024, 1, 10, 3, 4, 5, 0, time.UTC)})
+	if err != nil {
+		panic("newUploader: " + err.Error())
+	}
+	u2.Run()
+	vrt.Assert(len(vhttp.Log) == 1, "the expired week is uploaded once")
+	if len(vhttp.Log) != 1 {
+		return
+	}
+	r := vcDecodeReport(vhttp.Log[0].Body)
+	vrt.Assert(r != nil && len(r.Programs) == 1, "request body is a report with the one program")
+	if r == nil || len(r.Programs) != 1 {
+		return
+	}
+	vrt.Assert(r.Programs[0].Counters["c"] == int64(c2), "uploaded value = the expired file's value")
+	vrt.Assert(r.Programs[0].Counters["d"] == int64(d2), "a counter first used after an earlier look at the file is uploaded")
 }
